@@ -165,6 +165,64 @@ type keyWrite struct {
 	flag uint32
 }
 
+// secondLife: after a successful recovery from a crash state the store gets a second life: a fresh process writes a new
+// value for every key, flushes, and is killed again (no Close); a third process must then serve exactly those values
+// (they were acknowledged and flushed, nothing newer exists). st is the directory as the recovering process left it.
+func secondLife(cfg *store.VerifCfg, st *vos.FS, keys []string, desc string) *Mismatch {
+	var mm *Mismatch
+	vals := map[string]string{}
+	res := vsched.Run(vsched.Opts{}, func(s *vsched.Sched) {
+		m := &Machine{Cfg: cfg, S: s, FS: st}
+		vos.Attach(st)
+		if err := m.Open(); err != nil {
+			mm = &Mismatch{Op: desc, Where: "second life: open", Want: "opens (it did a moment ago)", Got: err.Error(), Class: "crash2-refused"}
+			return
+		}
+		defer m.Exit()
+		s.Drain()
+		for i, k := range keys {
+			Tick()
+			v := fmt.Sprintf("second-life-%s-%d", k, i)
+			vals[k] = v
+			if got := m.Cmd(fmtSet(k, 0, 0, []byte(v))); got != "STORED\r\n" {
+				mm = &Mismatch{Op: desc, Where: "second life: set " + k, Want: "STORED", Got: got, Class: "crash2-set"}
+				return
+			}
+		}
+		s.Drain()
+		m.St.VerifFlush(true)
+		s.Drain()
+	})
+	if res.Aborted != "" {
+		return &Mismatch{Op: desc, Where: "second life", Want: "runs", Got: res.Aborted + ": " + res.Msg, Class: "crash2-" + res.Aborted}
+	}
+	if mm != nil {
+		return mm
+	}
+	res = vsched.Run(vsched.Opts{}, func(s *vsched.Sched) {
+		m := &Machine{Cfg: cfg, S: s, FS: st}
+		vos.Attach(st)
+		if err := m.Open(); err != nil {
+			mm = &Mismatch{Op: desc, Where: "third life: open", Want: "opens", Got: err.Error(), Class: "crash2-refused"}
+			return
+		}
+		defer m.Exit()
+		s.Drain()
+		for _, k := range keys {
+			got := m.Cmd("get " + k + "\r\n")
+			want := fmt.Sprintf("VALUE %s 0 %d\r\n%s\r\nEND\r\n", k, len(vals[k]), vals[k])
+			if got != want {
+				mm = &Mismatch{Op: desc, Where: "third life: get after (kill, write+flush, kill)", Key: k, Want: want, Got: clip(got), Class: "crash2-lost-durable"}
+				return
+			}
+		}
+	})
+	if res.Aborted != "" {
+		return &Mismatch{Op: desc, Where: "third life", Want: "runs", Got: res.Aborted + ": " + res.Msg, Class: "crash2-" + res.Aborted}
+	}
+	return mm
+}
+
 // expectDurableOrLater (C06): the last complete record D of the key on disk, or
 // any write of that key issued after D (its effect may survive through index files).
 func expectDurableOrLater(writes map[string][]keyWrite) func(k string, d *durable) []allowedVal {
@@ -205,6 +263,9 @@ func writesHash(writes map[string][]keyWrite) string {
 	}
 	return sb.String()
 }
+
+// histories up to this length get the kill / write+flush / kill chain after every whole-mutation crash point
+var secondLifeMaxLen = 4
 
 var crashSeen = map[uint64]bool{}
 var prefixSeen = map[uint64]bool{}
@@ -301,6 +362,11 @@ func c06ExecNode(x *XSpec, hist []Op, wantDump bool) HistOutcome {
 		mm, refused := recoverAndCheck(x.Cfg, st, x.Keys, expect, desc)
 		if refused {
 			crashStats["recoveries_refused"]++
+		}
+		if mm == nil && !refused && cut < 0 && x.Depth >= 0 && len(hist) <= secondLifeMaxLen {
+			// chain: kill, recover, write + flush, kill, recover (only from whole-mutation crash points)
+			crashStats["second_lives"]++
+			mm = secondLife(x.Cfg, st, x.Keys, desc+", then a second life")
 		}
 		if mm != nil {
 			mm.Step = k
@@ -421,7 +487,7 @@ func c06SchedScenarios(tier string) []*Scenario {
 
 func C06(job *Job, r *Report) {
 	r.Level = "fault_enumeration"
-	r.Rule = "part (i): every history up to the stated depth over {set small / two-block value, delete, forced flush, background work (post-rotation flush), hint dump, Close as last letter} with data files of 2 blocks, hint splits of 2 items and a 256-byte bufio (so write calls end mid-record); for each history EVERY prefix of the memfs mutation log and, for every write, torn variants (every 256-byte boundary, cuts at 1/23/24/25/len-1, every byte for collision.yaml / nextgc.txt) is materialised as a crash state; distinct crash states (by content hash) are recovered in a fresh process and every key is read. Oracle judged on the crash state itself with an independent decoder: the store serves the last complete record D of the key (or a miss for a tombstone / no record) or a write of that key issued after D, or refuses to start only if some data file ends in an incomplete record or is unaligned; distinct_nontrivial = distinct crash states recovered"
+	r.Rule = "part (i): every history up to the stated depth over {set small / two-block value, delete, forced flush, background work (post-rotation flush), hint dump, Close as last letter} with data files of 2 blocks, hint splits of 2 items and a 256-byte bufio (so write calls end mid-record); for each history EVERY prefix of the memfs mutation log and, for every write, torn variants (every 256-byte boundary, cuts at 1/23/24/25/len-1, every byte for collision.yaml / nextgc.txt) is materialised as a crash state; distinct crash states (by content hash) are recovered in a fresh process and every key is read. Oracle judged on the crash state itself with an independent decoder: the store serves the last complete record D of the key (or a miss for a tombstone / no record) or a write of that key issued after D, or refuses to start only if some data file ends in an incomplete record or is unaligned; from every whole-mutation crash point of histories of up to 4 letters the chain continues: the recovered directory gets a second process that writes a new value for every key, flushes and is killed, and a third process must serve exactly those values; distinct_nontrivial = distinct crash states recovered"
 	r.Assumptions = []string{"SIGKILL model: completed calls persist, the in-flight call may be partial, no reordering", "memfs models POSIX file semantics (validated by OS replay)", "no GC in this check, so file order is write order"}
 	for _, x := range c06Specs(job.Tier) {
 		if job.Part == "" || job.Part == x.Name {
